@@ -17,7 +17,10 @@ const ifaceRule = "one case = one generated history of interface-variable mocks 
 
 const concRule = "one case = one plan of 2-4 mocker tasks (own builder, disjoint targets: apply / stub / when / cancel / reset / call) and 1-3 caller tasks calling 1-3 steadily mocked functions (callback, origin-calling callback, stub) chosen from an address-adjacent window of the zoo so that targets share code pages, executed under the seeded scheduler with preemption at every hook site and GC / stack-growth events; non-trivial = at least one context switch; distinct = hash of (operations, context-switch sequence, fired events)"
 
+const spaceRule = "one case = one process: 1-4 requester tasks issue seeded Acquire+Write+execute requests (sizes 0, 1-256, page size +-1, 2^48, x8 variants up to exhaustion of the reserve) with the mmap path failing always / never / on a seeded half of the calls (errno injected at the mmap seam) and preemption at stub.holder.loaded between the bump pointer's load and add; non-trivial = at least one context switch or injected fault; distinct = hash of (operations, context-switch sequence, fired faults)"
+
 func init() {
+	props["C20"] = propCfg{World: "space", Level: "fault_enumeration", Quick: 1500, Thorough: 150000, RaceQ: 300, RaceT: 20000, PerProc: true, Rule: spaceRule, Assume: commonAssume}
 	props["C11"] = propCfg{World: "conc", Level: "exploration", Quick: 3000, Thorough: 250000, RaceQ: 500, RaceT: 40000, Chunk: 50, Rule: concRule, Assume: commonAssume}
 	props["C07"] = propCfg{World: "iface", Level: "exploration", Quick: 4000, Thorough: 300000, Chunk: 100, Rule: ifaceRule, Assume: commonAssume}
 	props["C04"] = propCfg{World: "stub", Level: "exploration", Quick: 8000, Thorough: 600000, Chunk: 200, Rule: stubRule, Assume: commonAssume}
